@@ -15,7 +15,7 @@ import (
 // MarshalSchema formats an AST schema as Cedar text.
 func MarshalSchema(schema *ast.Schema) []byte {
 	var buf bytes.Buffer
-	m := marshaler{w: &buf}
+	m := marshaler{w: &buf, declared: declaredNames(schema)}
 	m.marshalSchema(schema)
 	return buf.Bytes()
 }
@@ -23,6 +23,38 @@ func MarshalSchema(schema *ast.Schema) []byte {
 type marshaler struct {
 	w      *bytes.Buffer
 	indent int
+	// declared holds the base names of all entity, enum and common type declarations. A built-in type whose name
+	// is declared somewhere would read back as that declaration (a bare name resolves to a common type or an entity
+	// type before the built-ins), so it is written with its reserved prefix.
+	declared map[string]bool
+}
+
+func declaredNames(schema *ast.Schema) map[string]bool {
+	names := map[string]bool{}
+	add := func(entities ast.Entities, enums ast.Enums, commonTypes ast.CommonTypes) {
+		for n := range entities {
+			names[string(n)] = true
+		}
+		for n := range enums {
+			names[string(n)] = true
+		}
+		for n := range commonTypes {
+			names[string(n)] = true
+		}
+	}
+	add(schema.Entities, schema.Enums, schema.CommonTypes)
+	for _, ns := range schema.Namespaces {
+		add(ns.Entities, ns.Enums, ns.CommonTypes)
+	}
+	return names
+}
+
+// builtin writes the name of a built-in type
+func (m *marshaler) builtin(name string) {
+	if m.declared[name] {
+		m.w.WriteString("__cedar::")
+	}
+	m.w.WriteString(name)
 }
 
 func (m *marshaler) writeIndent() {
@@ -158,13 +190,13 @@ func (m *marshaler) marshalAnnotations(annotations ast.Annotations) {
 func (m *marshaler) marshalType(t ast.IsType) {
 	switch t := t.(type) {
 	case ast.StringType:
-		m.w.WriteString("String")
+		m.builtin("String")
 	case ast.LongType:
-		m.w.WriteString("Long")
+		m.builtin("Long")
 	case ast.BoolType:
-		m.w.WriteString("Bool")
+		m.builtin("Bool")
 	case ast.ExtensionType:
-		m.w.WriteString(string(t))
+		m.builtin(string(t))
 	case ast.SetType:
 		m.w.WriteString("Set<")
 		m.marshalType(t.Element)
